@@ -241,6 +241,23 @@ func (c *EvalCtx) eval(e *Expr) *V {
 			}
 		}
 		return n.eval(e.Args[0])
+	case "entry":
+		// entry(e): e evaluated in the state in which the function under verification was entered
+		if c.run.entry == nil {
+			c.fail("entry() not available here")
+		}
+		{
+			n := *c
+			n.st = c.run.entry
+			n.vars = make(map[string]*V, len(c.vars)+len(c.run.entry.params))
+			for k, x := range c.vars {
+				n.vars[k] = x
+			}
+			for k, x := range c.run.entry.params {
+				n.vars[k] = x
+			}
+			return n.eval(e.Args[0])
+		}
 	case "field":
 		base := c.eval(e.Args[0])
 		return c.evalField(base, e.Name, e)
@@ -826,6 +843,26 @@ func (c *EvalCtx) evalCall(e *Expr) *V {
 			k := c.eval(e.Args[0])
 			return vBool(selN(st.comp("iter#visited", 2, "Bool"), []string{it.S, c.keyTerm(k, e.Args[0])}))
 		}
+	case "ranged":
+		// ranged(): the map the enclosing map range loop iterates over
+		argc(0)
+		{
+			it, ok := c.vars["$iter"]
+			if !ok || it.L2 == nil {
+				c.fail("ranged() used outside a map range loop invariant")
+			}
+			return &V{K: KMapH, L2: it.L2}
+		}
+	case "produced":
+		// produced(): number of keys the enclosing map range loop has produced so far
+		argc(0)
+		{
+			it, ok := c.vars["$iter"]
+			if !ok {
+				c.fail("produced() used outside a map range loop invariant")
+			}
+			return vInt(sSel(st.comp("iter#count", 1, "Int"), it.S), types.Typ[types.Int])
+		}
 	case "received":
 		// received(ch): number of values successfully received from channel ch by this activation tree
 		argc(1)
@@ -865,6 +902,16 @@ func (c *EvalCtx) evalCall(e *Expr) *V {
 		// held_errors(p): how many errors the *multierror.Error p holds (ghost of the library model)
 		argc(1)
 		return vInt(sSel(st.comp("multierror#n", 1, "Int"), c.intOf(e.Args[0])), types.Typ[types.Int])
+	case "arr":
+		// arr(s): identity of the backing array of slice s
+		argc(1)
+		{
+			a := c.eval(e.Args[0])
+			if a.K != KSlice {
+				c.fail("arr() expects a slice")
+			}
+			return vInt(a.Arr, types.Typ[types.UnsafePointer])
+		}
 	case "errOf":
 		// errOf(tag, val): the error value with that dynamic type tag and payload
 		argc(2)
